@@ -25,15 +25,35 @@ Fixpoint join_nl (ls : list bytes) : bytes :=
 
 Definition unlines (ls : list bytes) : bytes := List.concat (map (fun l => l ++ [nl]) ls).
 
-Definition drop_cr (l : bytes) : bytes :=
-  match rev l with c :: r => if N.eqb c cr then rev r else l | [] => l end.
+(* dropCR: remove one trailing "\r" (linear, no list reversal) *)
+Fixpoint drop_cr (l : bytes) : bytes :=
+  match l with
+  | [] => []
+  | c :: r => match r with
+              | [] => if N.eqb c cr then [] else [c]
+              | _ => c :: drop_cr r
+              end
+  end.
 
-Definition drop_last_empty (ls : list bytes) : list bytes :=
-  match rev ls with [] :: r => rev r | _ => ls end.
+(* the final empty piece (input ended with a newline, or was empty) is not a token *)
+Fixpoint drop_last_empty (ls : list bytes) : list bytes :=
+  match ls with
+  | [] => []
+  | l :: r => match r with
+              | [] => match l with [] => [] | _ => [l] end
+              | _ => l :: drop_last_empty r
+              end
+  end.
 
 (* bufio.Scanner with ScanLines over the whole input *)
 Definition scan (s : bytes) : list bytes := map drop_cr (drop_last_empty (split_nl s)).
 
 (* strings.TrimSuffix(s, "\n") *)
-Definition trim_one_nl (s : bytes) : bytes :=
-  match rev s with c :: r => if N.eqb c nl then rev r else s | [] => s end.
+Fixpoint trim_one_nl (s : bytes) : bytes :=
+  match s with
+  | [] => []
+  | c :: r => match r with
+              | [] => if N.eqb c nl then [] else [c]
+              | _ => c :: trim_one_nl r
+              end
+  end.
